@@ -157,4 +157,238 @@ theorem shutdownWorkers_rebase (c : Cfg) (o : List Obs) (b : Bool) (s : State) :
   rw [h1, h2, shutdownLoop_rebase]
   split <;> rfl
 
+/-- One iteration of `loop` after the `skip` scan. -/
+def loopBody (c : Cfg) (n : Nat) (s : State) : State × Option Obs :=
+  if s.sendIdx ≤ s.rcvdIdx then
+    ((if c.persistent then s else shutdownWorkers c s), some .stop)
+  else
+    match lookupInfo s.info s.rcvdIdx with
+    | none => (s, none)
+    | some e =>
+      match e.res with
+      | some r =>
+        let s := { s with info := eraseInfo s.info s.rcvdIdx, rcvdIdx := s.rcvdIdx + 1 }
+        if r.kind = .notice then loop c n { s with wsnaps := applyDelta s.wsnaps r.w r.st }
+        else ((processData c s r).1, some (processData c s r).2)
+      | none =>
+        ({ s with bad := s.bad || s.shutdown || decide (s.outstanding = 0) }, none)
+
+theorem loop_succ_eq (c : Cfg) (n : Nat) (s : State) :
+    loop c (n + 1) s = loopBody c n (skip s (s.sendIdx - s.rcvdIdx)) := rfl
+
+theorem loop_rebase (c : Cfg) (o : List Obs) (b : Bool) (n : Nat) (s : State) :
+    loop c n (rebase o b s) = rebase2 o b (loop c n s) := by
+  induction n generalizing s with
+  | zero => rfl
+  | succ n ih =>
+    have h1 : (rebase o b s).rcvdIdx = s.rcvdIdx := rfl
+    have h2 : (rebase o b s).sendIdx = s.sendIdx := rfl
+    rw [loop_succ_eq, loop_succ_eq, h1, h2, skip_rebase]
+    generalize skip s (s.sendIdx - s.rcvdIdx) = t
+    have g1 : (rebase o b t).rcvdIdx = t.rcvdIdx := rfl
+    have g2 : (rebase o b t).sendIdx = t.sendIdx := rfl
+    have g3 : (rebase o b t).info = t.info := rfl
+    unfold loopBody
+    rw [g1, g2, g3]
+    by_cases hle : t.sendIdx ≤ t.rcvdIdx
+    · rw [if_pos hle, if_pos hle, shutdownWorkers_rebase]
+      split <;> rfl
+    · rw [if_neg hle, if_neg hle]
+      cases lookupInfo t.info t.rcvdIdx with
+      | none => rfl
+      | some e =>
+        obtain ⟨ei, ew, er⟩ := e
+        cases er with
+        | none =>
+          simp only [rebase2]
+          congr 1
+          rb_close
+        | some r =>
+          simp only
+          by_cases hk : r.kind = .notice
+          · rw [if_pos hk, if_pos hk]
+            exact ih { t with info := eraseInfo t.info t.rcvdIdx, rcvdIdx := t.rcvdIdx + 1,
+                              wsnaps := applyDelta t.wsnaps r.w r.st }
+          · rw [if_neg hk, if_neg hk]
+            have := processData_rebase c o b
+              { t with info := eraseInfo t.info t.rcvdIdx, rcvdIdx := t.rcvdIdx + 1 } r
+            exact congrArg (fun p : State × Obs => (p.1, some p.2)) this
+
+theorem finish_rebase {o : List Obs} {b : Bool} (p : State × Option Obs) :
+    finish (rebase2 o b p) = rebase o b (finish p) := by
+  obtain ⟨s, x⟩ := p
+  cases x with
+  | none => rfl
+  | some x => simp [finish, rebase2, rebase]
+
+theorem onArrival_rebase (c : Cfg) (o : List Obs) (b : Bool) (s : State) (r : Res) :
+    onArrival c (rebase o b s) r = rebase o b (onArrival c s r) := by
+  unfold onArrival
+  by_cases hn : (c.iterable && decide (r.kind = .notice)) = true
+  · rw [if_pos hn, if_pos hn]
+    by_cases hp : c.persistent = true
+    · simp only [hp, if_true]
+      rw [← tryPut_rebase]
+      congr 1
+      rb_close
+    · simp only [hp]
+      rw [markUnavailable_rebase, ← tryPut_rebase]
+      congr 1
+      rb_close
+  · rw [if_neg hn, if_neg hn]
+
+/-- `recvData` after the arrival bookkeeping. -/
+def recvTail (c : Cfg) (s : State) (r : Res) : State :=
+  if r.idx ≠ s.rcvdIdx then
+    if !c.inOrder then
+      if r.kind = .notice then
+        finish (loop c (loopFuel s) { s with wsnaps := applyDelta s.wsnaps r.w r.st })
+      else
+        finish ((processData c { s with info := eraseInfo s.info r.idx } r).1,
+                some (processData c { s with info := eraseInfo s.info r.idx } r).2)
+    else finish (loop c (loopFuel s) { s with info := setRes s.info r.idx r })
+  else
+    if r.kind = .notice then
+      finish (loop c (loopFuel { s with rcvdIdx := s.rcvdIdx + 1 })
+        { s with info := eraseInfo s.info r.idx, rcvdIdx := s.rcvdIdx + 1, wsnaps := applyDelta s.wsnaps r.w r.st })
+    else
+      finish ((processData c { s with info := eraseInfo s.info r.idx, rcvdIdx := s.rcvdIdx + 1 } r).1,
+              some (processData c { s with info := eraseInfo s.info r.idx, rcvdIdx := s.rcvdIdx + 1 } r).2)
+
+theorem recvData_eq_tail (c : Cfg) (s : State) (r : Res) :
+    recvData c s r = recvTail c (onArrival c { s with outstanding := s.outstanding - 1 } r) r := rfl
+
+theorem finish_loop_rebase (c : Cfg) (o : List Obs) (b : Bool) (n : Nat) (s : State) :
+    finish (loop c n (rebase o b s)) = rebase o b (finish (loop c n s)) := by
+  rw [loop_rebase, finish_rebase]
+
+theorem finish_process_rebase (c : Cfg) (o : List Obs) (b : Bool) (s : State) (r : Res) :
+    finish ((processData c (rebase o b s) r).1, some (processData c (rebase o b s) r).2) =
+      rebase o b (finish ((processData c s r).1, some (processData c s r).2)) := by
+  rw [processData_rebase]
+  exact finish_rebase (o := o) (b := b) ((processData c s r).1, some (processData c s r).2)
+
+theorem recvTail_rebase (c : Cfg) (o : List Obs) (b : Bool) (t : State) (r : Res) :
+    recvTail c (rebase o b t) r = rebase o b (recvTail c t r) := by
+  have g1 : (rebase o b t).rcvdIdx = t.rcvdIdx := rfl
+  have g2 : loopFuel (rebase o b t) = loopFuel t := rfl
+  have g3 : loopFuel { rebase o b t with rcvdIdx := t.rcvdIdx + 1 } = loopFuel { t with rcvdIdx := t.rcvdIdx + 1 } := rfl
+  unfold recvTail
+  rw [g1, g2, g3]
+  by_cases h1 : r.idx ≠ t.rcvdIdx
+  · rw [if_pos h1, if_pos h1]
+    by_cases h2 : (!c.inOrder) = true
+    · rw [if_pos h2, if_pos h2]
+      by_cases h3 : r.kind = .notice
+      · rw [if_pos h3, if_pos h3]
+        exact finish_loop_rebase c o b _ { t with wsnaps := applyDelta t.wsnaps r.w r.st }
+      · rw [if_neg h3, if_neg h3]
+        exact finish_process_rebase c o b { t with info := eraseInfo t.info r.idx } r
+    · rw [if_neg h2, if_neg h2]
+      exact finish_loop_rebase c o b _ { t with info := setRes t.info r.idx r }
+  · rw [if_neg h1, if_neg h1]
+    by_cases h3 : r.kind = .notice
+    · rw [if_pos h3, if_pos h3]
+      exact finish_loop_rebase c o b _
+        { t with info := eraseInfo t.info r.idx, rcvdIdx := t.rcvdIdx + 1, wsnaps := applyDelta t.wsnaps r.w r.st }
+    · rw [if_neg h3, if_neg h3]
+      exact finish_process_rebase c o b { t with info := eraseInfo t.info r.idx, rcvdIdx := t.rcvdIdx + 1 } r
+
+theorem recvData_rebase (c : Cfg) (o : List Obs) (b : Bool) (s : State) (r : Res) :
+    recvData c (rebase o b s) r = rebase o b (recvData c s r) := by
+  rw [recvData_eq_tail, recvData_eq_tail]
+  have h0 : ({ rebase o b s with outstanding := (rebase o b s).outstanding - 1 } : State) =
+      rebase o b { s with outstanding := s.outstanding - 1 } := rfl
+  rw [h0, onArrival_rebase, recvTail_rebase]
+
+theorem resetTail_rebase (c : Cfg) (o : List Obs) (b : Bool) (s : State) :
+    resetTail c (rebase o b s) = rebase o b (resetTail c s) := by
+  unfold resetTail
+  rw [← prime_rebase]
+  rfl
+
+theorem failedWorkers_rebase (o : List Obs) (b : Bool) (s : State) (n : Nat) :
+    failedWorkers (rebase o b s) n = failedWorkers s n := by
+  induction n with
+  | zero => rfl
+  | succ n ih => unfold failedWorkers; rw [ih]; rfl
+
+theorem markAll_rebase (c : Cfg) (o : List Obs) (b : Bool) (l : List Nat) (s : State) :
+    markAll c (rebase o b s) l = rebase o b (markAll c s l) := by
+  induction l generalizing s with
+  | nil => rfl
+  | cons w l ih => unfold markAll; rw [markUnavailable_rebase, ih]
+
+theorem rebase_append_obs (o : List Obs) (b : Bool) (s : State) (t : List Obs) :
+    ({ rebase o b s with obs := (rebase o b s).obs ++ t } : State) = rebase o b { s with obs := s.obs ++ t } := by
+  simp [rebase]
+
+theorem step_rebase_work (c : Cfg) (o : List Obs) (b : Bool) (s : State) (w : Nat) :
+    step c (rebase o b s) (.work w) = (step c s (.work w)).map (rebase o b) := by
+  have h1 : (rebase o b s).workers = s.workers := rfl
+  have h2 : (rebase o b s).shutdown = s.shutdown := rfl
+  simp only [step, h1, h2]
+  cases s.workers[w]? with
+  | none => rfl
+  | some k =>
+    by_cases hal : (!k.alive) = true
+    · simp [hal]
+    · simp only [hal]
+      cases k.q with
+      | nil => rfl
+      | cons m rest => rfl
+
+theorem step_rebase_next (c : Cfg) (o : List Obs) (b : Bool) (s : State) :
+    step c (rebase o b s) .next = (step c s .next).map (rebase o b) := by
+  have h1 : (rebase o b s).phase = s.phase := rfl
+  have h2 : loopFuel (rebase o b s) = loopFuel s := rfl
+  simp only [step, h1, h2]
+  by_cases hp : s.phase ≠ .idle
+  · rw [if_pos hp, if_pos hp]; rfl
+  · rw [if_neg hp, if_neg hp, finish_loop_rebase]; rfl
+
+theorem step_rebase_stateDict (c : Cfg) (o : List Obs) (b : Bool) (s : State) :
+    step c (rebase o b s) .stateDict = (step c s .stateDict).map (rebase o b) := by
+  have h1 : (rebase o b s).phase = s.phase := rfl
+  simp only [step, h1]
+  by_cases hp : s.phase ≠ .idle
+  · rw [if_pos hp, if_pos hp]; rfl
+  · rw [if_neg hp, if_neg hp]
+    simp [rebase]
+
+theorem step_rebase_reset (c : Cfg) (o : List Obs) (b : Bool) (s : State) :
+    step c (rebase o b s) .reset = (step c s .reset).map (rebase o b) := by
+  have h1 : (rebase o b s).phase = s.phase := rfl
+  have h2 : (rebase o b s).shutdown = s.shutdown := rfl
+  simp only [step, h1, h2]
+  by_cases hp : s.phase ≠ .idle ∨ (!c.persistent) = true ∨ s.shutdown = true
+  · rw [if_pos hp, if_pos hp]; rfl
+  · rw [if_neg hp, if_neg hp]; rfl
+
+theorem step_rebase_kill (c : Cfg) (o : List Obs) (b : Bool) (s : State) (w : Nat) :
+    step c (rebase o b s) (.kill w) = (step c s (.kill w)).map (rebase o b) := by
+  have h1 : (rebase o b s).workers = s.workers := rfl
+  simp only [step, h1]
+  cases s.workers[w]? with
+  | none => rfl
+  | some k =>
+    by_cases hal : (!k.alive) = true
+    · simp [hal]
+    · simp only [hal]
+      rfl
+
+theorem step_rebase_poll (c : Cfg) (o : List Obs) (b : Bool) (s : State) :
+    step c (rebase o b s) .pollTimeout = (step c s .pollTimeout).map (rebase o b) := by
+  have h1 : (rebase o b s).phase = s.phase := rfl
+  have h2 : (rebase o b s).resQ = s.resQ := rfl
+  simp only [step, h1, h2, failedWorkers_rebase]
+  by_cases hp : s.phase = .idle ∨ s.resQ ≠ []
+  · rw [if_pos hp, if_pos hp]; rfl
+  · rw [if_neg hp, if_neg hp]
+    cases failedWorkers s c.W with
+    | nil => rfl
+    | cons f fs =>
+      simp only [Option.map_some, markAll_rebase]
+      simp [rebase]
+
 end TDV.MP
